@@ -55,11 +55,13 @@ Proof.
     + apply check_acc in H. destruct H as [Hr H]. apply rval_eqb_eq in Hr. injection H as <-.
       left. repeat split; auto. discriminate.
     + apply check_acc in H. destruct H as [Hr H]. apply rval_eqb_eq in Hr.
+      apply check_acc in H. destruct H as [_ H].
       apply bind_acc in H. destruct H as (s1 & H1 & H). apply bind_acc in H. destruct H as (s2 & H2 & H).
       injection H as <-. right. repeat split; auto. cbn.
       rewrite (reg_release_entry _ _ _ H2), (reg_adj_refs _ _ _ _ H1). reflexivity.
   - (* replace *)
     apply check_acc in H. destruct H as [_ H]. apply check_acc in H. destruct H as [Hr H]. apply rval_eqb_eq in Hr.
+    apply check_acc in H. destruct H as [_ H].
     apply bind_acc in H. destruct H as (s1 & H1 & H). apply bind_acc in H. destruct H as (s2 & H2 & H).
     injection H as <-. split; auto. cbn.
     rewrite (reg_release_entry _ _ _ H2), (reg_adj_refs _ _ _ _ H1). reflexivity.
